@@ -20,7 +20,7 @@ echo "== existing suite with change" >> "$log"; (cd "$sc/repo" && go test -vet=o
 suite_ok=$(tail -4 "$log" | grep -c '^ok')
 echo "== demo with change" >> "$log"; run_demo "$sc/repo" >> "$log"; demo_fail=$(tail -6 "$log" | grep -c 'FAIL')
 echo "== check $prop against the change" >> "$log"
-/verif/bin/govc check -repo "$sc/repo" -prop "$prop" -tier quick -known /verif/known_findings.json -replays "$sc/replays" 2>&1 | cut -c1-300 | tail -8 >> "$log"
+VERIF_REPO="$sc/repo" VERIF_EVIDENCE="$sc" VERIF_REPLAYS="$sc/replays" /verif/check "$prop" quick 2>&1 | grep -v "^info" | cut -c1-300 | tail -8 >> "$log"
 caught=$(grep -c "^VIOLATION property=$prop" "$log")
 rm -rf "$sc"
 echo "$name: demo-passes-unchanged=$base_ok suite-ok-lines=$suite_ok demo-fails-with-change=$demo_fail caught=$caught"
